@@ -70,7 +70,7 @@ def renumber(p, t, rng):
 
 # ------------------------------------------------------------------------------ meshes
 
-def base_mesh(refdom_name, kind, rng):
+def base_mesh(refdom_name, kind, rng, min_quality=0.0):
     """first-order (p, t) of a small mesh.  kinds: 'delaunay' (simplices), 'structured', 'jiggled'"""
     import skfem
     from scipy.spatial import Delaunay
@@ -82,16 +82,28 @@ def base_mesh(refdom_name, kind, rng):
     if refdom_name in ('RefTri', 'RefTet'):
         d = 2 if refdom_name == 'RefTri' else 3
         if kind == 'delaunay':
-            while True:
+            for _ in range(200):
                 pts = np.round(rng.uniform(0, 1, (int(rng.integers(7, 11)) if d == 2 else int(rng.integers(7, 9)), d)), 3)
                 tri = Delaunay(pts)
                 t = tri.simplices.T.astype(np.int64)
-                # drop slivers (well-conditioned inputs)
+                # drop slivers (well-conditioned inputs): volume and, when asked, the shape quality of every cell
                 vol = np.abs(np.linalg.det(np.array([pts[t[k + 1]] - pts[t[0]] for k in range(d)]).transpose(1, 0, 2)))
                 keep = vol > (2e-3 if d == 2 else 2e-4)
+                if min_quality and d == 2:
+                    e2 = sum(np.sum((pts[t[a]] - pts[t[b]]) ** 2, axis=1) for a, b in ((0, 1), (1, 2), (0, 2)))
+                    keep &= (4 * np.sqrt(3) * 0.5 * vol / e2) >= min_quality
                 t = t[:, keep]
-                if t.shape[1] >= 4 and len(np.unique(t)) == pts.shape[0]:
+                if t.shape[1] < 4:
+                    continue
+                used, inv = np.unique(t, return_inverse=True)
+                t = inv.reshape(t.shape)
+                pts = pts[used]
+                # interior facets must exist
+                from collections import Counter
+                cnt = Counter(tuple(sorted(t[list(f), c])) for c in range(t.shape[1]) for f in itertools.combinations(range(d + 1), d))
+                if sum(1 for v in cnt.values() if v == 2) >= 3:
                     return pts.T.copy(), t
+            raise RuntimeError('no acceptable Delaunay mesh generated')
         if d == 2:
             m = skfem.MeshTri.init_tensor(np.linspace(0, 1, 3), np.linspace(0, 1, 3))
         else:
@@ -116,12 +128,12 @@ MESH1 = {'RefLine': 'MeshLine1', 'RefTri': 'MeshTri1', 'RefQuad': 'MeshQuad1', '
 MESH2 = {'RefTri': 'MeshTri2', 'RefQuad': 'MeshQuad2', 'RefTet': 'MeshTet2', 'RefHex': 'MeshHex2'}
 
 
-def make_mesh(refdom_name, kind, rng, reorder=True, renum=True):
+def make_mesh(refdom_name, kind, rng, reorder=True, renum=True, min_quality=0.0):
     """a mesh built through the DEFAULT constructor from randomly renumbered / locally reordered data.
     kind in {'delaunay','structured','jiggled','curved'}; returns (mesh, description dict)"""
     import skfem
     base = 'jiggled' if kind == 'curved' else kind
-    p, t = base_mesh(refdom_name, base, rng)
+    p, t = base_mesh(refdom_name, base, rng, min_quality=min_quality)
     if renum:
         p, t = renumber(p, t, rng)
     if reorder and refdom_name != 'RefWedge':
